@@ -34,7 +34,7 @@ OUT OF OR IN CONNECTION WITH THE SOFTWARE OR THE USE OR OTHER DEALINGS IN THE
 SOFTWARE.
 '''
 
-from math import sqrt, isclose
+from math import sqrt, isclose, isfinite
 
 from .plot_utils_import import from_dependency_import
 cspsubdiv = from_dependency_import('ink_extensions.cspsubdiv')
@@ -339,6 +339,8 @@ def parseLengthWithUnits(string_to_parse):
     try:
         value = float(string)
     except ValueError:
+        return None, None
+    if not isfinite(value): # float() also accepts the words "nan", "inf" and "infinity"
         return None, None
 
     return value, units
